@@ -198,7 +198,7 @@ theorem C05_auth_sound (X : X509) (k : Kind) (hk : k ≠ .stdioTls) (h p r : Nam
         have hname := C05_expected_name k hk h p r hw
         have h1 := he.1
         simp only [clientAccepts, hisv, Bool.false_or, hroot, hname, Bool.and_eq_true] at h1
-        exact ⟨scfg, peer, hs, hp, h1.1.1, h1.1.2, h1.2⟩
+        exact ⟨scfg, peer, hs, hp, h1.1.1.2, h1.1.2, h1.2⟩
 
 /-- **soundness (server side)**: a server configured to require client certificates admits
     only a client presenting a valid certificate that chains to the server's configured CA —
@@ -252,11 +252,112 @@ theorem C05_auth_complete (X : X509) (k : Kind) (hk : k ≠ .stdioTls) (h p r : 
   simp only [clientCfgFor, hc, hf, serverGetTlsConfig, hs, hg, Bool.true_and]
   cases hfl : so.flag with
   | false =>
-    simp [hpeer, clientAccepts, serverAdmits, hname, hcc.1, hchain, hvalid, hmatch, hsc.2.2.2.1]
+    simp [hpeer, clientAccepts, serverAdmits, hname, hcc.1, hchain, hvalid, hmatch, hsc.2.2.2.1, hw.2.1]
   | true =>
     rcases hcli with hno | ⟨c, hcert, hch, hv⟩
     · rw [hfl] at hno; cases hno
-    · simp [hpeer, clientAccepts, serverAdmits, hname, hcc.1, hchain, hvalid, hmatch, hcert, hsc.2.1, hch, hv]
+    · simp [hpeer, clientAccepts, serverAdmits, hname, hcc.1, hchain, hvalid, hmatch, hcert, hsc.2.1, hch, hv, hw.2.1]
+
+/-! ## 4b. host forms outside `WfHostPort`: port-only, IPv6 literals, trailing dot, upper case, userinfo
+
+    `C05_auth_sound` speaks about `h:p` with a plain non-empty `h`.  For EVERY authority string whatsoever the model
+    derives one name per kind (`nameFor`); a verified session exists only if that derived name is non-empty and the
+    certificate matches it - there is no host form for which verification is silently switched off. -/
+
+/-- **soundness for any host form**: whatever the upstream authority looks like, a session established with
+    verification on means the server certificate chains to the configured CA, is valid, and matches the name the kind
+    derives from the authority - which is not the empty string. -/
+theorem C05_auth_sound_any_host (X : X509) (k : Kind) (hk : k ≠ .stdioTls) (hostport r : Name)
+    (co so : Opts) (hins : co.flag = false)
+    (he : established X genFacts k hostport r co so = true) :
+    nameFor genFacts k hostport r ≠ [] ∧
+    ∃ scfg peer, serverGetTlsConfig SA.Gen.serverAuthGuardErrNil so = .ok scfg ∧ scfg.certs.head? = some peer ∧
+      X.chains (caPool co) peer = true ∧ X.validNow peer = true ∧
+      X.matchesName (nameFor genFacts k hostport r) peer = true := by
+  unfold established at he
+  cases hc : clientCfgFor genFacts.sites k co with
+  | err e => simp [hc] at he
+  | panic => simp [hc] at he
+  | ok ccfg =>
+    cases hs : serverGetTlsConfig genFacts.guardErrNil so with
+    | err e => simp [hc, hs] at he
+    | panic => simp [hc, hs] at he
+    | ok scfg =>
+      simp only [hc, hs] at he
+      cases hp : scfg.certs.head? with
+      | none => simp [hp] at he
+      | some peer =>
+        simp only [hp, Bool.and_eq_true] at he
+        have hisv : ccfg.insecureSkipVerify = false := by
+          rw [C05_verify_on_unless_insecure k hk co ccfg hc, hins]
+        have hroot : ccfg.rootCAs = caPool co := C05_root_pool_is_configured_ca k co ccfg hc
+        have h1 := he.1
+        simp only [clientAccepts, hisv, Bool.false_or, hroot, Bool.and_eq_true] at h1
+        refine ⟨?_, scfg, peer, hs, hp, h1.1.1.2, h1.1.2, h1.2⟩
+        intro hempty
+        have := h1.1.1.1
+        simp [hempty] at this
+
+/-- **a port-only upstream (`tcp://:9000`, `udp://:9000`, `ws://:8080/ws`, `wss://:443`, `tcp+tls://:9000`) has no
+    name to match: with verification on no session is established**, for every oracle, option set and port, whatever
+    the certificate of the server. -/
+theorem C05_port_only_refused (X : X509) (k : Kind) (hk : k ≠ .stdioTls) (p : Name) (hp : p.all isDigit = true)
+    (co so : Opts) (hins : co.flag = false) :
+    established X genFacts k (':' :: p) (':' :: p) co so = false := by
+  cases he : established X genFacts k (':' :: p) (':' :: p) co so with
+  | false => rfl
+  | true =>
+    have hne := (C05_auth_sound_any_host X k hk (':' :: p) (':' :: p) co so hins he).1
+    exfalso
+    apply hne
+    have hs : genFacts.stripsPort = true := by decide
+    have hd : genFacts.setsHostname = true := by decide
+    have hplain : Plain p := plain_of_digits hp
+    cases k with
+    | stdioTls => exact absurd rfl hk
+    | startTls =>
+      have := startTlsName_hostport [] p (by simp [Plain]) hplain
+      simpa [nameFor, hs] using this
+    | httpTls =>
+      have := urlHostname_hostport [] p (by simp [Plain]) hp
+      simpa [nameFor] using this
+    | socketTls =>
+      have hu : urlHostname (':' :: p) = [] := by
+        have := urlHostname_hostport [] p (by simp [Plain]) hp
+        simpa using this
+      have hdl : dialHostname (':' :: p) = [] := by
+        have := splitLastColon_append [] p (fun c hc => (hplain c hc).1)
+        simp only [List.nil_append] at this
+        simp [dialHostname, this]
+      simp [nameFor, socketTlsName, hu, hdl]
+
+/-- the name each kind derives for the host forms outside `WfHostPort` (what crypto/tls is asked to verify), and
+    the reference oracle's reading of them: brackets are dropped by SplitHostPort / Hostname(), a zone stays in the
+    name (and is no host name), upper case and a trailing dot are kept (x509 ignores them), a port-only authority
+    gives the empty name -/
+theorem C05_host_form_names :
+    startTlsName SA.Gen.startTlsStripsPort ":9000".toList = [] ∧
+    nameFor genFacts .socketTls ":9000".toList ":9000".toList = [] ∧
+    nameFor genFacts .httpTls ":8080".toList ":8080".toList = [] ∧
+    startTlsName SA.Gen.startTlsStripsPort "[::1]:443".toList = "::1".toList ∧
+    nameFor genFacts .socketTls "[::1]:443".toList "[::1]:443".toList = "::1".toList ∧
+    startTlsName SA.Gen.startTlsStripsPort "[::1%lo]:443".toList = "::1%lo".toList ∧
+    startTlsName SA.Gen.startTlsStripsPort "::1:443".toList = "::1:443".toList ∧
+    startTlsName SA.Gen.startTlsStripsPort "LOCALHOST.:443".toList = "LOCALHOST.".toList ∧
+    refX509.matchesName "LOCALHOST.".toList "good" = true ∧ refX509.matchesName "::1".toList "good" = true ∧
+    refX509.matchesName "[::ffff:127.0.0.1]".toList "iponly" = true ∧ refX509.matchesName "::1".toList "iponly" = false ∧
+    refX509.matchesName "::1%lo".toList "good" = false ∧ refX509.matchesName "::1:443".toList "good" = false ∧
+    refX509.matchesName "127.0.0.1.".toList "good" = false ∧ refX509.matchesName [] "good" = false := by
+  decide
+
+/-- non-vacuity: a verifying client against the `untrusted` (foreign CA) server at a port-only upstream is refused,
+    the insecure client is served; `[::1]` with the good certificate is established -/
+example : established refX509 genFacts .startTls ":4443".toList ":4443".toList
+    { ca := ⟨none, some (.cas ["A"])⟩ } { cert := ⟨none, some (.cert "untrusted")⟩, key := ⟨none, some (.key "untrusted" .plain)⟩ } = false := by decide
+example : established refX509 genFacts .startTls ":4443".toList ":4443".toList
+    { ca := ⟨none, some (.cas ["A"])⟩, flag := true } { cert := ⟨none, some (.cert "untrusted")⟩, key := ⟨none, some (.key "untrusted" .plain)⟩ } = true := by decide
+example : established refX509 genFacts .startTls "[::1]:4443".toList "[::1]:4443".toList
+    { ca := ⟨none, some (.cas ["A"])⟩ } { cert := ⟨none, some (.cert "good")⟩, key := ⟨none, some (.key "good" .plain)⟩ } = true := by decide
 
 /-! ## 5. the UDP shared secret -/
 
@@ -572,3 +673,6 @@ end SA.TlsConfig
 #print axioms SA.TlsConfig.C05_verification_field_inventory
 #print axioms SA.TlsConfig.C05_no_verification_override
 #print axioms SA.TlsConfig.C05_validity_boundary_table
+#print axioms SA.TlsConfig.C05_auth_sound_any_host
+#print axioms SA.TlsConfig.C05_port_only_refused
+#print axioms SA.TlsConfig.C05_host_form_names
